@@ -47,6 +47,7 @@ type vtCred struct {
 	Class string `json:"class"`
 	Send  string `json:"send"`
 	Ver   string `json:"ver"`
+	Sni   string `json:"sni"` // client peers: server name in the ClientHello: none | own (the proxy certificate's name) | foreign
 }
 type vtCase struct {
 	ID        int    `json:"id"`
@@ -247,6 +248,15 @@ func vtVersion(c *tls.Config, ver string) {
 func (p *vtPKI) peerClient(cred vtCred) (c *tls.Config, sent *atomic.Bool) {
 	c, sent = &tls.Config{InsecureSkipVerify: true}, new(atomic.Bool)
 	vtVersion(c, cred.Ver)
+	switch cred.Sni {
+	case "", "none":
+	case "own":
+		c.ServerName = "proxy.verif.test"
+	case "foreign":
+		c.ServerName = "other.example"
+	default:
+		panic("unknown sni kind " + cred.Sni)
+	}
 	cert, ok := p.peer[cred.Class]
 	if !ok {
 		panic("unknown credential class " + cred.Class)
